@@ -77,6 +77,9 @@ type Features struct {
 	NoMatchAgainst, NoShowDescribe bool
 	// NoSome: never spell the ANY quantifier SOME; NoTupleIn: no (a, b) IN ((1, 2), ...) rows
 	NoSome, NoTupleIn bool
+	// NoNestedSign: no "- - a". QuotedOddNames: quoted column names that start with a digit or contain
+	// '*' ("1abc", "a*b"); QuotedDotName / QuotedDigitsName: "a.b" / "12" as a column name.
+	NoNestedSign, QuotedOddNames, QuotedDotName, QuotedDigitsName bool
 	// Flat: no nested query anywhere and no statement-starting keyword after the
 	// first token (SELECT/INSERT ... VALUES/DELETE only): the sub-grammar C12 quantifies over
 	Flat bool
@@ -92,6 +95,7 @@ func FullFeatures() Features {
 	f.DDL, f.Merge, f.QuotedDDLNames, f.IndexNulls, f.DDLExtras = true, true, true, true, true
 	f.Alter, f.AlterQualified = true, true
 	f.MySQL, f.Partitions = true, true
+	f.QuotedOddNames, f.QuotedDotName, f.QuotedDigitsName = true, true, true
 	return f
 }
 
@@ -237,6 +241,20 @@ func (g *G) column() ident {
 	if g.F.QuotedKeywordID && g.chance(6, "kwcol") {
 		g.use("quoted_keyword_ident")
 		return g.pick(colKwPool, "kwcolname")
+	}
+	if (g.F.QuotedOddNames || g.F.QuotedDotName || g.F.QuotedDigitsName) && g.chance(5, "oddcol") {
+		var pool []ident
+		if g.F.QuotedOddNames {
+			pool = append(pool, q("1abc"), q("a*b"), q("9"+"_x"), q("*"+"x"))
+		}
+		if g.F.QuotedDotName {
+			pool = append(pool, q("a.b"), q("t1.c"))
+		}
+		if g.F.QuotedDigitsName {
+			pool = append(pool, q("12"), q("0"))
+		}
+		g.use("quoted_odd_ident")
+		return g.pick(pool, "oddcolname")
 	}
 	return g.pick(colPool, "col")
 }
